@@ -68,6 +68,10 @@ fn mutate_bytes(r: &mut Rng, s: &str) -> Vec<u8> {
 }
 
 pub fn run_case(id: &str, r: &mut Rng, out: &mut String) {
+    if r.chance(25) {
+        doc_case(id, r, out);
+        return;
+    }
     let c = app::gen_case(r);
     let csv = app::txs_to_csv(&c.rows);
     let malformed = r.chance(55);
@@ -179,4 +183,69 @@ pub fn run_case(id: &str, r: &mut Rng, out: &mut String) {
     out.push_str(&format!("repro {}\n", oneline(&format!("{}\n--- bytes (lossy utf-8)\n{}", desc, String::from_utf8_lossy(&bytes)))));
     out.push_str("end\n");
     let _: HashMap<u8, u8> = HashMap::new();
+}
+
+/// Importer text, damaged line by line: a generated E*TRADE confirmation (release, purchase,
+/// option exercise, trade confirmation in both layouts) with lines dropped, repeated, moved or
+/// remarks inserted, offered to `parse_pdf_text`.  Any `Err` is a diagnostic; a panic is not.
+fn doc_case(id: &str, r: &mut Rng, out: &mut String) {
+    let c = crate::etrade::gen_case(r);
+    let f = &c.files[r.below(c.files.len().max(1) as u64) as usize % c.files.len().max(1)];
+    let mut lines: Vec<String> = f.text.split('\n').map(|l| l.to_string()).collect();
+    let n = 1 + r.below(3);
+    for _ in 0..n {
+        if lines.len() < 3 {
+            break;
+        }
+        let i = r.below(lines.len() as u64) as usize;
+        match r.below(7) {
+            0 => {
+                lines.remove(i);
+            }
+            1 => {
+                let l = lines[i].clone();
+                lines.insert(i, l);
+            }
+            2 => {
+                let j = r.below(lines.len() as u64) as usize;
+                lines.swap(i, j);
+            }
+            3 => {
+                let remark = *r.pick(&[
+                    "        Note: Grant 2 was exercised in part.",
+                    "        Grant 3",
+                    "Shares Sold (1.0000)",
+                    "Commission $0.00",
+                    "        Sale Price $1.00",
+                    "Trade Date Settlement Date Quantity Price Settlement Amount",
+                ]);
+                lines.insert(i, remark.to_string());
+            }
+            4 => lines.truncate(i.max(1)),
+            5 => {
+                // blank the numbers of a line
+                lines[i] = lines[i].chars().map(|ch| if ch.is_ascii_digit() { ' ' } else { ch }).collect();
+            }
+            _ => {
+                // glue a line to the next one (text extraction dropping a line break)
+                if i + 1 < lines.len() {
+                    let nx = lines.remove(i + 1);
+                    lines[i].push_str(&nx);
+                }
+            }
+        }
+    }
+    let text = lines.join("\n");
+    let t2 = text.clone();
+    let res = catch(move || match acb::peripheral::broker::etrade::parse_pdf_text(&t2, std::path::Path::new("doc.txt")) {
+        Ok(_) => "ok".to_string(),
+        Err(_) => "docerr".to_string(),
+    });
+    out.push_str(&format!("case {} fuzz malformed=1 doc=1\n", id));
+    match res {
+        Ok(o) => out.push_str(&format!("impl {}\n", o)),
+        Err(p) => out.push_str(&format!("impl panic {}\n", oneline(&p))),
+    }
+    out.push_str(&format!("repro {}\n", oneline(&format!("parse_pdf_text on the damaged confirmation {}:\n{}", f.name, text))));
+    out.push_str("end\n");
 }
